@@ -805,19 +805,36 @@ func vSdGenerate(h *vSd, r *vrand, nseq int) {
 				}
 			}
 			from := [2]int{len(h.ep[0].hist), len(h.ep[1].hist)}
-			for round := 0; round < 60; round++ {
-				before := len(h.ep[0].hist) + len(h.ep[1].hist)
+			// in the tail the write loop runs as the real one does: only when it has been woken up (awakeWriteLoopCh),
+			// so a state change that forgets to wake it shows up as a sequence that does not reach CLOSED
+			woken := func(x int) bool {
+				select {
+				case <-h.ep[x].a.awakeWriteLoopCh:
+					return true
+				default:
+					return false
+				}
+			}
+			for round := 0; round < 80; round++ {
+				moved := false
 				for x := 0; x < 2; x++ {
-					h.do("sd gather %d", x)
+					if !h.ep[x].wlExited && woken(x) {
+						h.do("sd gather %d", x)
+						moved = true
+					}
+					if from[x] < len(h.ep[x].hist) {
+						moved = true
+					}
 					h.flushTo(x, &from[x])
-					if h.ep[1-x].a.ackState == ackStateDelay {
+					if h.ep[1-x].a.ackState == ackStateDelay && !h.ep[1-x].wlExited {
 						h.do("sd ackt %d", 1-x)
+						moved = true
 					}
 				}
 				if h.ep[0].wlExited && h.ep[1].wlExited {
 					break
 				}
-				if len(h.ep[0].hist)+len(h.ep[1].hist) == before {
+				if !moved {
 					// nothing moved: a retransmission timer is what is left
 					fired := false
 					for x := 0; x < 2; x++ {
